@@ -10,7 +10,7 @@ open Index
     `site-packages` or it lies in an editable install outside the workspace; it is a plugin
     fixture iff its file was reached through a pytest11 entry point (or propagated from one). -/
 theorem C14_classification (pfx : Path) (st : Index) (f : Path) (d : Def) :
-    (stampDef pfx st f d).thirdParty = (pathMentionsSitePackages pfx f || st.editableThirdParty f) ∧
+    (stampDef pfx st f d).thirdParty = (inSitePackages pfx st f || st.editableThirdParty f) ∧
     (stampDef pfx st f d).plugin = st.pluginFiles.contains f := ⟨rfl, rfl⟩
 
 /-- an editable install whose source lies inside the workspace (or that contains the workspace)
